@@ -33,6 +33,8 @@ func (h *TextStreamBulkHandler) GetChannels(_ http.ResponseWriter, r *http.Reque
 				nextElement, err := ParseTextStream(scanner)
 				if err != nil {
 					h.err = err
+					h.actions = append(h.actions, "")
+					h.channel <- newInvalidElement(err)
 					return
 				}
 
